@@ -329,6 +329,18 @@ def extra_stage(tier, rng, work):
                               strict_sni_cases=len(scases) - smissing, strict_sni_requests=reqs, strict_sni_421=rejected))
 
 
+def bin_for_case(case):
+    """a replayed strict-SNI scenario (first op `listen`) goes to the black-box driver that produced it"""
+    return "c17sni" if case.ops and case.ops[0][0] == "listen" else HARNESS_BIN
+
+
+def model_ops(case, out):
+    """the model takes no part in a strict-SNI black-box scenario: its observations are handed through"""
+    if case.ops and case.ops[0][0] == "listen":
+        return [["bbobs"] + list(ob) for ob in out["obs"]]
+    return case.ops
+
+
 def corpus_cases():
     d = os.path.join(vlib.ROOT, "corpus", ID)
     out = []
